@@ -530,6 +530,17 @@ class UmEngine:
 		plan["seed"] = seed
 		return plan
 
+	def drop_ops(self, plan, lo, hi):
+		"""Remove ops[lo:hi] but keep the absolute timing of everything after them."""
+		ops = plan["ops"]
+		gone = sum(max(0, int(o.get("dt", 0))) for o in ops[lo:hi])
+		rest = [dict(o) for o in ops[hi:]]
+		if rest and gone:
+			rest[0]["dt"] = int(rest[0].get("dt", 0)) + gone
+		p = dict(plan)
+		p["ops"] = [dict(o) for o in ops[:lo]] + rest
+		return p
+
 	def simplify(self, plan):
 		# fewer transceivers (drop trailing extras nobody addresses), faults off, simpler clock
 		cfg = plan["config"]
